@@ -226,6 +226,17 @@ def rule_attr_set(rep, crate):
         rep.inst(rid, 'strip_attributes:loop-depths', detail=sorted(depth))
         if len(calls) != 3 or sorted(depth) != [0, 1, 2] or not all(a.endswith('.attrs') for a in args):
             rep.viol(rid, 'attr-set:levels', 'strip_attrs_from_vec is applied at loop depths %s to %s, expected enum (0), variant (1) and field (2) attributes' % (sorted(depth), args), loc(s))
+        # the field level covers the fields of EVERY kind of variant: the innermost loop runs over `variant.fields` as a whole
+        # (`&mut Fields` / Fields::iter_mut), not over the payload of one Fields variant (`Fields::Named(f) => f.named`), which
+        # would leave helper attributes on tuple fields in the emitted enum
+        for (b, t), dp in zip(calls, depth):
+            if dp != 2:
+                continue
+            sl = s.slice(t['args'][0])
+            whole = [c for c in sl.calls if re.search(r'(mut syn::Fields as std::iter::IntoIterator>::into_iter|syn::Fields::iter_mut)$', c)]
+            rep.inst(rid, 'strip_attributes:field-source', detail=sorted(c for c in sl.calls if 'Fields' in c or 'Punctuated' in c))
+            if not whole:
+                rep.viol(rid, 'attr-set:field-source', 'the field-level strip_attrs_from_vec is not fed by an iteration over the whole `variant.fields` (calls on its argument: %s): fields of some variant kinds keep their logos attributes' % sorted(c for c in sl.calls if 'Fields' in c or 'Punctuated' in c or 'next' in c)[:4], loc(s, t['line']))
         # nothing else removes attributes / variants / fields
         bad = [s.callee_name(t) for _b, t in s.calls() if re.search(r'::(retain|remove|clear|pop|truncate|drain|swap_remove|take)$', s.callee_name(t))]
         if bad:
